@@ -36,6 +36,15 @@
 #define PAGE_SIZE NAKEN_ASM_VERIF_PAGE_SIZE
 #endif
 
+#ifdef NAKEN_ASM_VERIF
+// Verification hook: the assembler pass in progress (set by AsmContext's
+// write methods) and, after file_write(), how many bytes of the image were
+// last written by pass 1 (and where the first one is).
+extern uint8_t naken_asm_verif_pass;
+extern uint32_t naken_asm_verif_stale_count;
+extern uint32_t naken_asm_verif_stale_first;
+#endif
+
 class MemoryPage
 {
 public:
@@ -47,6 +56,9 @@ public:
   {
     memset(bin, 0, sizeof(bin));
     memset(debug_line, -1, sizeof(debug_line));
+#ifdef NAKEN_ASM_VERIF
+    memset(verif_pass, 0, sizeof(verif_pass));
+#endif
 
     this->address = (this->address / PAGE_SIZE) * PAGE_SIZE;
   }
@@ -63,6 +75,9 @@ public:
     if (offset > offset_max) { offset_max = offset; }
 
     bin[offset] = data;
+#ifdef NAKEN_ASM_VERIF
+    verif_pass[offset] = naken_asm_verif_pass;
+#endif
   }
 
   void set_debug(uint32_t address, int value)
@@ -93,6 +108,11 @@ public:
   // It's also used to know which memory locations have been written to
   // so the hexfiles only save data for memory locations that are full.
   int debug_line[PAGE_SIZE];
+
+#ifdef NAKEN_ASM_VERIF
+  // Verification hook: the assembler pass that wrote each byte last.
+  uint8_t verif_pass[PAGE_SIZE];
+#endif
 };
 
 #endif
